@@ -31,8 +31,8 @@ PROBES = {
     "C09": ["roundtrip"],
     "C10": [],
     "C11": ["flat_enumeration", "mask_checked", "mask_after_discovery",
-            "host_index_wraps"],
-    "C13": ["gstep_on_stale_state"],
+            "host_index_wraps", "rebuild_compared"],
+    "C13": ["gstep_on_stale_state", "repeated_gstep_compared"],
 }
 
 RULES = {
